@@ -56,6 +56,32 @@ def model_phase(prop, tier, wd, info):
     return cases
 
 
+DIFF_DESIGNS = ["shipped", "allOrNothing/merge", "overwrite/merge", "max/lastWins", "max/lastWinsIfExisting"]
+
+
+def diff_cases(tier, seed, wd, info):
+    """InterchangeDiff.tla: per design mutant, ALL (record before, file) inputs on which that design would leave something at or
+    below the data signable or lower a record; the shipped design has none.  One TLC run per design, in parallel; a seeded
+    sample of each set is replayed."""
+    def one(d):
+        c = iconsts([0, 1, 2], 2)
+        c.update(OutFile="diff.json", Only=d)
+        name = "InterchangeDiff_" + d.replace("/", "_")
+        r = tlc("InterchangeDiff", make_cfg(c, spec="DSpec"), wd, name=name, workers=1, timeout=1500)
+        require_ok(r, "InterchangeDiff(%s)" % d)
+        return d, json.load(open(os.path.join(wd, name, "diff.json")))["cases"]
+    with ThreadPoolExecutor(max_workers=len(DIFF_DESIGNS)) as ex:
+        res = dict(ex.map(one, DIFF_DESIGNS))
+    per = 40 if tier == "quick" else 600
+    out, counts = [], {}
+    for d in DIFF_DESIGNS[1:]:
+        counts[d] = len(res[d])
+        for c in stable_sample(res[d], per, seed):
+            out.append(dict(before=c["before"], file=c["file"], meta="ok", phase="imported", after=None, origin="input on which the design %s fails (InterchangeDiff)" % d))
+    info["model_runs"].append(dict(module="InterchangeDiff", V=[0, 1, 2], MaxEntries=2, shipped_design_exposed_inputs=len(res["shipped"]), mutant_exposed_inputs=counts, replayed_per_design=per))
+    return out
+
+
 def gen_cases(n, seed, wd):
     workers = min(NCPU, 8)
     r = tlc("InterchangeSim", make_cfg(iconsts([0, 1, 2], 3), spec="SimSpec"), wd, name="InterchangeSim", workers=workers,
@@ -69,7 +95,7 @@ def gen_cases(n, seed, wd):
             out.append(json.loads(m.group(1).replace('\\"', '"')))
     if not out:
         raise Inconclusive("InterchangeSim produced no cases")
-    return out[:n]
+    return stable_sample(out, n, seed)
 
 
 def run_dirk(args, storage, wd, timeout=60):
@@ -214,6 +240,7 @@ def run_c10(tier, seed):
     try:
         cases = model_phase(prop, tier, wd, info)
         cases += gen_cases(90 if tier == "quick" else 2500, seed, wd)
+        cases += diff_cases(tier, seed, wd, info)
         exe = build_harness("dirkdrv")
         build_dirk()
         pubs = json.loads(subprocess.run([exe, "-pubkeys", "70"], stdout=subprocess.PIPE, text=True).stdout)
@@ -261,7 +288,7 @@ def run_c10(tier, seed):
             verdict.violation("%s:%s" % (violated, json.dumps(rr["case"], sort_keys=True)[:300]),
                               "import of %s over prior %s (exit %s): real run rejected by SeqTrace invariant %s" %
                               (json.dumps(rr["file"])[:300], rr["case"]["before"], rr["rc"], violated),
-                              dict(case=rr["case"], file=rr["file"], rc=rr["rc"], scenarios=rr["scenarios"], trace=seg[:80], invariant=violated))
+                              dict(case=rr["case"], idx=rr["idx"], conc=rr["scenarios"][0]["conc"], file=rr["file"], rc=rr["rc"], scenarios=rr["scenarios"], trace=seg[:80], invariant=violated))
         rc = verdict.finish()
         cov = dict(states=info["states"], transitions=info["transitions"], traces_validated_against_impl=len(results),
                    samples=[dict(case=results[0]["case"], file=results[0]["file"], exit_code=results[0]["rc"]),
@@ -373,37 +400,7 @@ def run_c11(tier, seed):
         for r, job in zip(results, jobs):
             inv = job[3]
             start = len(lines) + 1
-            lines.append(dict(ev="Begin", sc=r["sid"]))
-            signed = set()
-            for lg in r["legacy"]:
-                signed.add("k%d" % lg["k"])
-                lines.append(dict(ev="Floor", k="k%d" % lg["k"], s=lg["s"], t=lg["t"], slot=lg["slot"]))
-            for ev in r["pre"]:
-                if ev["ev"] == "Release":
-                    signed.add(ev["k"])
-                    lines.append(dict(ev="Release", r=ev["r"], i=ev["i"], pos=ev.get("pos", ev["i"]), k=ev["k"], kind=ev["kind"], s=ev["s"], t=ev["t"], slot=ev["slot"],
-                                      root=ev["root"], dom=ev["dom"], ip="none"))
-            bypub = {("0x" + p).lower(): "k%d" % i for i, p in enumerate(pubs)}
-            seen = set()
-            for d in r["exported"].get("data", []):
-                k = bypub.get(d["pubkey"].lower())
-                if k is None or k not in signed:
-                    continue
-                seen.add(k)
-                def ab(x):
-                    return inv.get(int(x), -99)
-                atts = d.get("signed_attestations") or []
-                blocks = d.get("signed_blocks") or []
-                s = max([ab(a["source_epoch"]) for a in atts], default=-1)
-                t = max([ab(a["target_epoch"]) for a in atts], default=-1)
-                slot = max([ab(b["slot"]) for b in blocks], default=-1)
-                lines.append(dict(ev="Exported", k=k, s=s, t=t, slot=slot))
-            for k in signed - seen:
-                lines.append(dict(ev="Exported", k=k, s=-1, t=-1, slot=-1))
-            nkeys_signed += len(signed)
-            ra = [e["res"] for e in r["probes_a"] if e["ev"] == "Respond"]
-            rb = [e["res"] for e in r["probes_b"] if e["ev"] == "Respond"]
-            lines.append(dict(ev="SamePair", a=ra, b=rb))
+            nkeys_signed += project_c11(r, inv, pubs, lines)
             index.append((start, len(lines), r["sid"]))
         # records in the older (gob) on-disk format of every value must be honoured: replay the transition table
         # with all prior records written in that format; nothing at or below such a record may be signed
@@ -436,13 +433,13 @@ def run_c11(tier, seed):
             if sid in legacy_scn:
                 seg = [lines[a - 1:b] for a, b, s_ in index if s_ == sid][0]
                 verdict.violation("%s:legacy:%s" % (violated, sid), "a request at or below a record stored in the older on-disk format was signed (scenario %s)" % sid,
-                                  dict(scenario=legacy_scn[sid], trace=seg[:200], invariant=violated))
+                                  dict(legacy=True, scenario=legacy_scn[sid], meta=lb.meta[sid], floors=lb.expect[sid]["floors"], trace=seg[:200], invariant=violated))
                 results_for_violation = []
             rr = ([r for r in results if r["sid"] == sid] or [None])[0]
         if not ok and rr is not None:
             seg = [lines[a - 1:b] for a, b, s in index if s == sid][0]
             verdict.violation("%s:%s" % (violated, sid), "history %s: export / re-import rejected by SeqTrace invariant %s (exported %s)" %
-                              (sid, violated, json.dumps(rr["exported"])[:300]), dict(scenario=rr["scenario"], exported=rr["exported"], trace=seg[:120], invariant=violated))
+                              (sid, violated, json.dumps(rr["exported"])[:300]), dict(scenario=rr["scenario"], idx=rr["idx"], conc=rr["scenario"]["conc"], hists=rr["hists"], big=rr["idx"] >= 9000, exported=rr["exported"], trace=seg[:120], invariant=violated))
         rc = verdict.finish()
         cov = dict(states=info["states"], transitions=info["transitions"], traces_validated_against_impl=len(results),
                    samples=[dict(history=results[0]["hists"][0], exported=results[0]["exported"])],
@@ -461,8 +458,76 @@ def run(prop, tier, seed):
     return run_c10(tier, seed) if prop == "C10" else run_c11(tier, seed)
 
 
+def project_c11(r, inv, pubs, lines):
+    lines.append(dict(ev="Begin", sc=r["sid"]))
+    signed = set()
+    for lg in r["legacy"]:
+        signed.add("k%d" % lg["k"])
+        lines.append(dict(ev="Floor", k="k%d" % lg["k"], s=lg["s"], t=lg["t"], slot=lg["slot"]))
+    for ev in r["pre"]:
+        if ev["ev"] == "Release":
+            signed.add(ev["k"])
+            lines.append(dict(ev="Release", r=ev["r"], i=ev["i"], pos=ev.get("pos", ev["i"]), k=ev["k"], kind=ev["kind"], s=ev["s"], t=ev["t"], slot=ev["slot"],
+                              root=ev["root"], dom=ev["dom"], ip="none"))
+    bypub = {("0x" + p).lower(): "k%d" % i for i, p in enumerate(pubs)}
+    seen = set()
+    for d in r["exported"].get("data", []):
+        k = bypub.get(d["pubkey"].lower())
+        if k is None or k not in signed:
+            continue
+        seen.add(k)
+        ab = lambda x: inv.get(int(x), -99)
+        atts = d.get("signed_attestations") or []
+        blocks = d.get("signed_blocks") or []
+        lines.append(dict(ev="Exported", k=k, s=max([ab(a["source_epoch"]) for a in atts], default=-1), t=max([ab(a["target_epoch"]) for a in atts], default=-1),
+                          slot=max([ab(b["slot"]) for b in blocks], default=-1)))
+    for k in signed - seen:
+        lines.append(dict(ev="Exported", k=k, s=-1, t=-1, slot=-1))
+    ra = [e["res"] for e in r["probes_a"] if e["ev"] == "Respond"]
+    rb = [e["res"] for e in r["probes_b"] if e["ev"] == "Respond"]
+    lines.append(dict(ev="SamePair", a=ra, b=rb))
+    return len(signed)
+
+
 def replay(prop, path):
-    print("replay: the replay file contains the case, the interchange file and the two driver scenarios; re-run ./bin/check %s to reproduce" % prop)
-    obj = json.load(open(path))
-    print(json.dumps(obj["replay"], indent=1)[:3000])
-    return 2
+    """Re-run the case of a replay file on the current tree (real binary, real storage, probes) and validate it again."""
+    obj = json.load(open(path))["replay"]
+    wd = workdir(prop + "-replay")
+    try:
+        exe = build_harness("dirkdrv")
+        build_dirk()
+        lines = []
+        if obj.get("legacy"):
+            events, rc, err = run_driver([obj["scenario"]], wd, tag="replay")
+            seqfamily.project_one(obj["scenario"]["id"], obj["meta"], obj["floors"], events, lines)
+            invs = ["AboveFloor"]
+        elif prop == "C10":
+            pubs = json.loads(subprocess.run([exe, "-pubkeys", "70"], stdout=subprocess.PIPE, text=True).stdout)
+            r = one_case((obj["idx"], obj["case"], obj["conc"], pubs, wd))
+            if "error" in r:
+                print(r["error"])
+                return 2
+            project_case(r, lines)
+            invs = ["AboveFloor", "DbPairsHold", "RejectOK"]
+        else:
+            pubs = json.loads(subprocess.run([exe, "-pubkeys", "66"], stdout=subprocess.PIPE, text=True).stdout)
+            inv = {int(v): a for a, v in enumerate(obj["conc"])}
+            job = (obj["idx"], obj["hists"], obj["conc"], inv, pubs, wd) + ((True,) if obj.get("big") else ())
+            r = one_c11(job)
+            if "error" in r:
+                print(r["error"])
+                return 2
+            project_c11(r, inv, pubs, lines)
+            invs = ["ExportFaithful", "SamePairsHold", "AboveFloor"]
+        for ln in lines[:200]:
+            print(json.dumps(ln)[:300])
+        ok, violated, pos, tr = seqfamily.validate(lines, invs, 3, wd)
+        if ok:
+            print("replay: run accepted by SeqTrace (%s hold)" % ", ".join(invs))
+            return 0
+        if violated in invs:
+            print("VIOLATION property=%s replay=%s" % (prop, path))
+            return 1
+        return 2
+    finally:
+        cleanup(wd)
